@@ -26,6 +26,15 @@ chk("C05", "exploration",
     "Inputs are sampled; 'reasonably sized' for stack overflow is fixed as <= 8 KiB and nesting <= 256; the independent tokenizer is trusted on inputs without syntax errors (calibrated on the corpus); hangs are decided by a 100x re-run budget.",
     "runtime monitoring: crash/hang monitor over generated inputs in subprocess workers + token-yield oracle", "DESIGN.md §4 C05")
 
+chk("C08", "exploration",
+    "Every (outer construct, operand position, inner construct, with/without parentheses) triple, random nestings, generated declaration modules, every corpus file, valid corpus mutants and the LSP format route are formatted at widths {1,20,40,80,100,200}; the output must parse and its canonical syntax tree (locations and comments stripped, imports as a sorted set) must equal the input's. A failing case is localised to the deepest expression whose own print->reparse round trip fails and to the responsible operand.",
+    "Trusts the canonical dump (astwalk::canon) and the repository's parser as the reader of both texts; inputs with syntax errors are outside the property; 5 deliberate regroupings of same-operator chains are pinned by a golden test and listed as known findings.",
+    "runtime monitoring: round-trip oracle (format -> reparse -> canonical tree equality) over generated and corpus inputs", "DESIGN.md §4 C08")
+chk("C10", "exploration",
+    "Generated histories of update/create/rename_module/remove over 2-6 interdependent modules (valid, ill-typed and unparsable contents, cycles, missing imports, interface/implementer pairs) are applied to one incremental ServerState; after every step the rendered diagnostics of every module are compared with those of a freshly constructed ServerState on the same file contents. First differing step = violation, minimised by dropping earlier operations.",
+    "The fresh server is the reference model; per-module diagnostics are compared as sorted lists and bullet lists inside a message as sets (their order follows hashing, which is C12's subject); histories are sampled.",
+    "runtime monitoring: differential oracle against an executable reference model after every step of generated histories", "DESIGN.md §4 C10")
+
 NA_REASON = "check under construction in this round (machinery not yet registered)"
 m = {
  "version": 1,
